@@ -21,7 +21,7 @@ from pyvc.harness import get_target, verify
 from pyvc.interp import Config, LoopSpec, PyRaise
 from pyvc.pool import collect, run_jobs
 from pyvc.report import A_FP, VENV_PY
-from pyvc.values import Obj, SArr, SInt, SOpt, SReal, SU, U, to_z3, ustr, wrap
+from pyvc.values import Obj, SArr, SInt, SOpt, SReal, SU, U, asum, asum_definition, to_z3, ustr, wrap
 
 LEVEL = "other"
 T = "iodata.orbitals.MolecularOrbitals"
@@ -427,7 +427,7 @@ def job_shell():
     ncon = z3.Int("sh.ncon")
     angf = z3.Function("sh.l", z3.IntSort(), z3.IntSort())
     kindf = z3.Function("sh.k", z3.IntSort(), U)
-    cnt = z3.Function("sh.count", z3.IntSort(), z3.IntSort())  # ghost: functions of the first k contractions
+    kk = z3.Int("sh.kk")
 
     def size(k):
         l = angf(k)
@@ -436,22 +436,41 @@ def job_shell():
     def legal(k):
         return z3.Or(kindf(k) == ustr("c"), z3.And(kindf(k) == ustr("p"), angf(k) >= 2))
 
+    # ghost: number of functions of the first k contractions = asum(SZ, k), SZ[k] = size(k) (the recursive sum of
+    # pyvc.values; its two defining equations for this array are assumed below)
+    SZ = z3.Lambda([kk], z3.ToReal(size(kk)))
+
+    def cnt(k):
+        return asum(SZ, k)
+
+    def real(v):
+        t = to_z3(v)
+        return z3.ToReal(t) if t.sort() == z3.IntSort() else t
+
     cfg = Config()
 
+    # the accumulator is the local that the loop updates and the function returns (whatever its name is)
+    try:
+        _, _, ret, _, upd, carried = source.loop_roles("iodata.basis", "Shell.nbasis", 0)
+        acc = [nm for nm in carried if nm in ret][0]
+    except (LookupError, IndexError):
+        acc = None  # no accumulating loop (e.g. sum() over a generator): the loop contract does not apply
+
     def havoc(interp, frame, k):
-        frame.locals["result"] = SInt(interp.ctx.fresh_int("nb.result"))
+        frame.locals[acc] = SInt(interp.ctx.fresh_int("nb.result"))
 
     def inv_nb(interp, frame, k):
         j = z3.Int("nbj")
-        return z3.And(k <= ncon, to_z3(frame.locals["result"]) == cnt(k), z3.ForAll([j], z3.Implies(z3.And(0 <= j, j < k), legal(j))))
+        return z3.And(k <= ncon, real(frame.locals[acc]) == cnt(k), z3.ForAll([j], z3.Implies(z3.And(0 <= j, j < k), legal(j))))
 
-    cfg.loop_specs[(f"{TS}.nbasis", 0)] = LoopSpec("zip(self.angmoms, self.kinds)", havoc, inv_nb, name="loop.contractions")
+    if acc is not None:
+        cfg.loop_specs[(f"{TS}.nbasis", 0)] = LoopSpec("zip(self.angmoms, self.kinds)", havoc, inv_nb, name="loop.contractions")
 
     def setup2(ctx, interp):
         ctx.assume(ncon >= 0)
         k = z3.Int("ck")
-        ctx.assume(cnt(0) == 0)
-        ctx.assume(z3.ForAll([k], z3.Implies(z3.And(0 <= k, k < ncon), cnt(k + 1) == cnt(k) + size(k))))
+        for d in asum_definition(SZ):
+            ctx.assume(d)
         ctx.assume(z3.ForAll([k], angf(k) >= 0))
         sh = Obj(basis.Shell, tag="shell")
         sh.fields.update(icenter=0, angmoms=SArr((ncon,), lambda idx: angf(idx[0]), "int"), kinds=SArr((ncon,), lambda idx: kindf(idx[0]), "str"), exponents=SArr.fresh("e", (1,), "float"), coeffs=SArr.fresh("c", (1, ncon), "float"))
@@ -467,7 +486,12 @@ def job_shell():
             ctx.prove(f"{TS}.nbasis::raises.only-TypeError", isinstance(pr.exc, TypeError), kind="raises")
             ctx.prove(f"{TS}.nbasis::raises.only-for-an-illegal-kind", z3.Not(all_legal), kind="raises")
             return
-        ctx.prove(f"{TS}.nbasis::post.sum-of-(l+1)(l+2)/2-for-cartesian-and-2l+1-for-pure", to_z3(r) == cnt(ncon))
+        t = to_z3(r)
+        if z3.is_app(t) and t.decl().name() == "asum":
+            # the code sums a generator: sum(g(k) for k ...) = asum(G, n).  Instance of the summation lemma proved by
+            # induction in job_lemmas (schema (1, -1)): element-wise equal arrays have equal sums.
+            ctx.assume(lemmas.linear_sum_instance([(1, t.arg(0)), (-1, SZ)], t.arg(1)))
+        ctx.prove(f"{TS}.nbasis::post.sum-of-(l+1)(l+2)/2-for-cartesian-and-2l+1-for-pure", real(r) == cnt(ncon))
         ctx.prove(f"{TS}.nbasis::post.every-kind-is-legal", all_legal)
 
     # the loop is inside the property getter, whose frame name is the qualified name of the function
